@@ -555,7 +555,7 @@ class Interp:
 
     def store(self, arr, idx, v, vty):
         self.log.append(("W", arr.name, idx))
-        arr.set(idx, self.cast(v, vty, arr.dtype))
+        arr.set(idx, v if isinstance(v, Cx) else self.cast(v, vty, arr.dtype))
 
     def index_key(self, idx, ity):
         """IR index value -> python key (ints/slices), forking on symbolic parts"""
@@ -719,6 +719,10 @@ class Interp:
         if op in ("binop", "inplace_binop"):
             a, b = env[v.lhs.name], env[v.rhs.name]
             sig = cap.ct[v]
+            if hasattr(a, "factors") or hasattr(b, "factors"):      # abstract FFT spectra (symx.fftc)
+                if INPLACE.get(v.fn, v.fn) is not operator.mul:
+                    raise Unsupported("operation on an abstract spectrum")
+                return a * b
             if isinstance(a, NArr) or isinstance(b, NArr):
                 return self.array_binop(v.fn, a, b, sig, where)
             return self.binop(v.fn, a, b, sig, where)
@@ -801,6 +805,10 @@ class Interp:
             raise Unsupported(f"array attr {attr}")
         if isinstance(o, RecRef):
             return self.getitem(o, attr, None)
+        if isinstance(o, Cx):
+            if attr in ("real", "imag"):
+                return o.re if attr == "real" else o.im
+            raise Unsupported(f"complex attr {attr}")
         if isinstance(o, Sym):
             raise Unsupported(f"attr {attr} of symbolic scalar")
         return getattr(o, attr)
@@ -829,6 +837,22 @@ class Interp:
     def arrayexpr(self, expr, env, ty, where):
         """fused array expression: inner ops typed on scalars as numba's lowering does"""
         rty = ty.dtype
+
+        def has_spec(e):
+            if isinstance(e, ir.Var):
+                return hasattr(env[e.name], "factors")
+            if isinstance(e, tuple):
+                return any(has_spec(x) for x in e[1])
+            return False
+
+        def ev_spec(e):
+            if isinstance(e, ir.Var):
+                return env[e.name]
+            if isinstance(e, tuple) and INPLACE.get(e[0], e[0]) is operator.mul and len(e[1]) == 2:
+                return ev_spec(e[1][0]) * ev_spec(e[1][1])
+            raise Unsupported("operation on an abstract spectrum inside an array expression")
+        if has_spec(expr):
+            return ev_spec(expr)
 
         def ev(e):
             if isinstance(e, ir.Var):
@@ -885,6 +909,9 @@ class Interp:
             out.set(i, self.cast(v, vt, rty))
         return out
 
+    def hooks_by_name(self):
+        return ()
+
     # ------------------------------------------------------------ calls
     def call(self, f, a, kw, sig, where, node):
         if f in self.hooks:
@@ -904,6 +931,8 @@ class Interp:
         if f is len:
             x = a[0]
             return x.shape[0] if isinstance(x, NArr) else len(x)
+        if f in self.hooks_by_name():
+            pass
         if f is bool:
             x = a[0]
             return self.cast(x, x.ty, types.boolean) if isinstance(x, Sym) else bool(x)
@@ -1035,6 +1064,7 @@ class Interp:
                 raise Unsupported("sqrt outside explorer")
             r = c.fresh_real("sqrt")
             c.assume(z3.And(r >= 0, r * r == t))
+            c.notes.append(("sqrt", r, t))
             return Sym(r, rt)
         if f is np.floor:
             return Sym(z3.ToReal(z3.ToInt(t)), rt)
@@ -1109,6 +1139,13 @@ class Interp:
                 self.store(o, i, a[0], sig.args[0])
             return None
         raise Unsupported(f"array method {name}")
+
+
+class Cx:
+    """complex scalar (re, im) - only .real/.imag are supported"""
+
+    def __init__(self, re, im):
+        self.re, self.im = re, im
 
 
 class _Sig:
